@@ -319,7 +319,7 @@ Proof.
     { intros p sc. apply F2_set_last; [exact J|]. unfold RF. cbn. repeat split; try reflexivity. exact LS. }
     destruct (is_substr token [40; 91; 123]); [fin; apply UP|].
     destruct (is_substr token [41; 93; 125]).
-    { destruct ((parens f - 1 =? 0)%Z); fin; apply UP. }
+    { destruct ((parens f - 1 =? 0)%Z); [fin; apply UP|]. destruct ((parens f - 1 <? spec_count f)%Z); fin; apply UP. }
     destruct (starts_with [colon] token && (parens f - spec_count f =? 1)%Z); [fin; apply UP|fin].
   - rewrite A. destruct (is_substr token [40; 91; 123]); [fin|]. destruct (is_substr token [41; 93; 125]); fin.
 Qed.
